@@ -32,7 +32,78 @@ impl Default for DocOpts {
 
 /// Well-separated number pool: small integers, dyadic fractions, a few large
 /// exact integers, and integer-valued doubles (same value, float spelling).
+/// A value that is *almost* `v`: the same number in another spelling or the
+/// next representable neighbour, a string with one character changed, a
+/// container with one leaf changed.  Siblings like these expose deduplication,
+/// interning and caching that key too coarsely.
+pub fn near_value(v: &J, src: &mut Src) -> J {
+    near_value_opt(v, src, false)
+}
+
+/// `ulp`: also produce the neighbouring double (only where the consumer tolerates the
+/// JSON parser's 2 ulp accuracy on 17-digit numerals).
+pub fn near_value_opt(v: &J, src: &mut Src, ulp: bool) -> J {
+    match v {
+        J::Num(N::Int(i)) => match src.below(3) {
+            // (only while the float spelling stays within 15 written digits, which the JSON parser reads exactly)
+            0 if i.abs() < 10_000_000_000_000 => J::Num(N::F(*i as f64)),
+            1 if *i < u64::MAX as i128 => J::Num(N::Int(*i + 1)),
+            1 => J::Num(N::Int(*i - 1)),
+            _ => J::Num(N::Int(*i)),
+        },
+        J::Num(N::F(f)) => match src.below(3) {
+            0 if f.fract() == 0.0 && f.abs() < 1e15 => J::Num(N::Int(*f as i128)),
+            1 if ulp => J::Num(N::F(f64::from_bits(f.to_bits() ^ 1))),
+            _ => J::Num(N::F(*f + 0.5)),
+        },
+        J::Str(s) => {
+            let mut cs: Vec<char> = s.chars().collect();
+            if cs.is_empty() {
+                return J::s(" ");
+            }
+            let i = src.below(cs.len());
+            match src.below(3) {
+                0 => cs[i] = if cs[i] == 'a' { 'b' } else { 'a' },
+                1 => cs.push(cs[i]),
+                _ => {
+                    cs.remove(i);
+                }
+            }
+            J::Str(cs.into_iter().collect())
+        }
+        J::Arr(a) if !a.is_empty() => {
+            let mut b2 = a.clone();
+            let i = src.below(b2.len());
+            b2[i] = near_value_opt(&b2[i], src, ulp);
+            J::Arr(b2)
+        }
+        J::Obj(o) if !o.is_empty() => {
+            let mut m = o.clone();
+            let ks: Vec<String> = m.keys().cloned().collect();
+            let k = ks[src.below(ks.len())].clone();
+            let nv = near_value_opt(&m[&k], src, ulp);
+            m.insert(k, nv);
+            J::Obj(m)
+        }
+        J::Bool(b) => J::Bool(!b),
+        other => other.clone(),
+    }
+}
+
 pub fn gen_number(src: &mut Src) -> J {
+    if src.chance(6) {
+        // huge but well-separated integers (beyond i64) and magnitudes next to zero
+        return match src.below(8) {
+            0 => J::Num(N::Int(9223372036854775808)),
+            1 => J::Num(N::Int(18446744073709551615)),
+            2 => J::Num(N::Int(12000000000000000000)),
+            3 => J::Num(N::Int(-9223372036854775808)),
+            4 => J::f(1e-17),
+            5 => J::f(-3e-200),
+            6 => J::f(5e-324),
+            _ => J::int(0),
+        };
+    }
     match src.weighted(&[10, 6, 2, 3]) {
         0 => J::int(src.range(-3, 12)),
         1 => {
@@ -115,9 +186,13 @@ pub fn gen_array(src: &mut Src, depth: usize, o: &DocOpts) -> J {
     let n = if depth <= 1 && src.chance(10) { src.size(150) } else { src.below(o.max_width + 1) };
     // sometimes homogeneous arrays of objects (useful for filters / projections)
     let homogeneous = src.chance(96);
-    let mut out = vec![];
+    let mut out: Vec<J> = vec![];
     for _ in 0..n {
-        if homogeneous && depth < o.max_depth {
+        // sometimes an exact or near duplicate of the previous element
+        if !out.is_empty() && src.chance(24) {
+            let prev = out[out.len() - 1].clone();
+            out.push(if src.flip() { prev } else { near_value(&prev, src) });
+        } else if homogeneous && depth < o.max_depth {
             out.push(gen_object(src, depth + 1, o));
         } else {
             out.push(gen_json(src, depth + 1, o));
